@@ -419,7 +419,26 @@ class SymInterp(Interp):
         cmp_uf = {"less": "lt", "less_equal": "le", "greater": "gt", "greater_equal": "ge", "equal": "eq", "not_equal": "ne"}
         un_uf = {"negative": lambda a: -a, "square": lambda a: a * a, "reciprocal": lambda a: rat(1) / a, "positive": lambda a: a}
 
-        def with_out(r, out):
+        def with_out(r, out, k=None):
+            k = dict(k or {})
+            where = k.pop("where", True)
+            for key in list(k):
+                if key in ("dtype", "casting", "order", "subok"):
+                    k.pop(key)
+            if k:
+                raise AnalysisAbort(f"ufunc keyword(s) {sorted(k)} are not modelled")
+            if where is not True:
+                # ufunc(..., where=mask): only the entries where the mask holds are computed; the others keep what `out` held
+                # (uninitialised memory without out=)
+                r = S.asarr(r)
+                mask = S.asarr(where).broadcast_to(r.shape)
+                old = out.broadcast_to(r.shape).data if isinstance(out, SArr) else [Rat.sym("uninitialised")] * r.size
+                data = []
+                for m, new, o in zip(mask.data, r.data, old):
+                    if not (isinstance(m, Rat) and m.is_const()):
+                        raise AnalysisAbort("ufunc where= mask that depends on symbolic data")
+                    data.append(new if m.const() != 0 else o)
+                r = SArr(r.shape, data)
             if out is None:
                 return r
             if not isinstance(out, SArr):
@@ -428,12 +447,12 @@ class SymInterp(Interp):
             return out
         if name in bin_uf:
             f = bin_uf[name]
-            return lambda a, b, out=None, **k: with_out(ew(lambda x, y: f(rat(x), rat(y)), a, b) if (isinstance(a, SArr) or isinstance(b, SArr)) else f(rat(a), rat(b)), out)
+            return lambda a, b, out=None, **k: with_out(ew(lambda x, y: f(rat(x), rat(y)), a, b) if (isinstance(a, SArr) or isinstance(b, SArr)) else f(rat(a), rat(b)), out, k)
         if name in cmp_uf:
-            return lambda a, b, out=None, **k: with_out(I.data_cmp(cmp_uf[name], a, b), out)
+            return lambda a, b, out=None, **k: with_out(I.data_cmp(cmp_uf[name], a, b), out, k)
         if name in un_uf:
             g = un_uf[name]
-            return lambda a, out=None, **k: with_out(ew(lambda x: g(rat(x)), a) if isinstance(a, SArr) else g(rat(a)), out)
+            return lambda a, out=None, **k: with_out(ew(lambda x: g(rat(x)), a) if isinstance(a, SArr) else g(rat(a)), out, k)
         if name == "errstate":
             return lambda **k: None
         if name == "asanyarray" or name == "ascontiguousarray":
